@@ -193,7 +193,9 @@ func copySamplesTrak(f *mp4.File, trak *mp4.TrakBox, file []byte, a, b uint32, w
 	}
 	ws = hx.Exact(ws)
 	p := hx.Try(func() { err = f.CopySampleData(w, newRS(file, 0, orc, zeof), trak, a, b, ws) })
-	return resStr(w.b, err, p)
+	res := resStr(w.b, err, p)
+	copyWithGuardedWS(f, trak, file, a, b, workLen, orc, zeof, res) // hygiene.go 2(a)
+	return res
 }
 
 func (tr *trackGT) tableLine() string {
